@@ -6,6 +6,7 @@ Import ListNotations.
 From GV Require Import C04.Model.
 
 Ltac Zify.zify_post_hook ::= Z.to_euclidean_division_equations.
+Local Open Scope nat_scope.
 
 Section ListLemmas.
   Context {A : Type}.
@@ -44,6 +45,15 @@ Section ListLemmas.
         * etransitivity; [apply perm_swap|]. etransitivity; [|apply perm_swap].
           apply perm_skip. apply IHs. exact Hi.
       + apply perm_skip. apply IH; assumption.
+  Qed.
+
+  Lemma nth_error_firstn' (l : list A) n k :
+    nth_error (firstn n l) k = if k <? n then nth_error l k else None.
+  Proof.
+    revert n k; induction l as [|y r IH]; intros n k.
+    - rewrite firstn_nil. destruct k; simpl; destruct (_ <? n); reflexivity.
+    - destruct n as [|n]; [destruct k; reflexivity|].
+      destruct k as [|k]; simpl; [reflexivity|]. rewrite IH. reflexivity.
   Qed.
 End ListLemmas.
 
@@ -85,7 +95,7 @@ Section HeapProofs.
     nth_error l i = Some a -> nth_error l j = Some b -> lessAt less l i j = less a b.
   Proof. intros Hi Hj. unfold lessAt. rewrite Hi, Hj. reflexivity. Qed.
 
-  Lemma nth_error_swap l i j a b k :
+  Lemma nth_error_swap (l : list A) i j a b k :
     nth_error l i = Some a -> nth_error l j = Some b ->
     nth_error (swap l i j) k = if k =? j then Some a else if k =? i then Some b else nth_error l k.
   Proof.
@@ -95,19 +105,19 @@ Section HeapProofs.
     apply Nat.ltb_lt in Li. apply Nat.ltb_lt in Lj. rewrite Li, Lj, !andb_true_r. reflexivity.
   Qed.
 
-  Lemma swap_length l i j : length (swap l i j) = length l.
+  Lemma swap_length (l : list A) i j : length (swap l i j) = length l.
   Proof.
     unfold swap. destruct (nth_error l i), (nth_error l j); try reflexivity.
     now rewrite !upd_length.
   Qed.
 
-  Lemma swap_perm l i j : Permutation (swap l i j) l.
+  Lemma swap_perm (l : list A) i j : Permutation (swap l i j) l.
   Proof.
     unfold swap. destruct (nth_error l i) eqn:Hi, (nth_error l j) eqn:Hj; try reflexivity.
     eapply upd_perm_swap; eassumption.
   Qed.
 
-  Lemma in_range l i : i < length l -> exists a, nth_error l i = Some a.
+  Lemma in_range (l : list A) i : i < length l -> exists a, nth_error l i = Some a.
   Proof.
     intros H. destruct (nth_error l i) eqn:E; [eauto|]. apply nth_error_None in E. lia.
   Qed.
@@ -118,19 +128,31 @@ Section HeapProofs.
     (forall p c, isChild c p -> c < length l -> c <> j -> lessAt less l c p = false) /\
     (forall p c, isChild j p -> isChild c j -> c < length l -> lessAt less l c p = false).
 
+  Lemma up_unfold f (l : list A) j : up less (S f) l j =
+    if ((j - 1) / 2 =? j) || negb (lessAt less l j ((j - 1) / 2)) then l
+    else up less f (swap l ((j - 1) / 2) j) ((j - 1) / 2).
+  Proof. reflexivity. Qed.
+
+  Lemma down_unfold f (l : list A) i n : down less (S f) l i n =
+    if n <=? 2 * i + 1 then l
+    else if negb (lessAt less l (if (2 * i + 1 + 1 <? n) && lessAt less l (2 * i + 1 + 1) (2 * i + 1) then 2 * i + 1 + 1 else 2 * i + 1) i) then l
+    else down less f (swap l i (if (2 * i + 1 + 1 <? n) && lessAt less l (2 * i + 1 + 1) (2 * i + 1) then 2 * i + 1 + 1 else 2 * i + 1))
+                     (if (2 * i + 1 + 1 <? n) && lessAt less l (2 * i + 1 + 1) (2 * i + 1) then 2 * i + 1 + 1 else 2 * i + 1) n.
+  Proof. reflexivity. Qed.
+
   Lemma up_correct fuel : forall l j, j < length l -> j < fuel -> up_pre l j ->
     heap_ok (up less fuel l j) /\ length (up less fuel l j) = length l /\ Permutation (up less fuel l j) l.
   Proof.
     induction fuel as [|f IH]; intros l j Hj Hf [P1 P2]; [lia|].
-    simpl. set (i := (j - 1) / 2).
-    destruct (Nat.eqb_spec i j) as [Eij|Nij]; simpl.
+    rewrite up_unfold. set (i := (j - 1) / 2).
+    destruct (Nat.eqb_spec i j) as [Eij|Nij]; cbn [orb].
     - (* j = 0 *)
-      assert (j = 0) by (subst i; lia). subst j.
+      assert (j = 0) by (unfold i in *; lia). unfold i in *. clear i. subst j.
       split; [|split; reflexivity]. intros p c Hc Hlt. apply P1; auto. pose proof (child_gt _ _ Hc); lia.
-    - assert (Hj0 : 0 < j) by (subst i; lia).
+    - assert (Hj0 : 0 < j) by (unfold i in *; lia).
       pose proof (parent_child j Hj0) as Hch. fold i in Hch.
       pose proof (parent_lt j Hj0) as Hlt. fold i in Hlt.
-      destruct (lessAt less l j i) eqn:Hl; simpl.
+      destruct (lessAt less l j i) eqn:Hl; cbn [negb].
       + (* swap and continue at i *)
         destruct (in_range l j Hj) as [b Hb]. destruct (in_range l i ltac:(lia)) as [a Ha].
         rewrite (lessAt_in _ _ _ _ _ Hb Ha) in Hl.
@@ -206,7 +228,7 @@ Section HeapProofs.
     induction fuel as [|f IH]; intros l i n Hn Hf [P1 P2].
     - simpl. split; [|auto]. intros p c Hc Hclt. pose proof (child_gt _ _ Hc).
       apply P1; auto. unfold isChild in Hc. lia.
-    - simpl. destruct (Nat.leb_spec n (2 * i + 1)) as [Hle|Hgt].
+    - rewrite down_unfold. destruct (Nat.leb_spec n (2 * i + 1)) as [Hle|Hgt].
       + split; [|auto]. intros p c Hc Hclt. apply P1; auto. unfold isChild in Hc. lia.
       + set (left := 2 * i + 1) in *.
         set (child := if (left + 1 <? n) && lessAt less l (left + 1) left then left + 1 else left).
@@ -224,7 +246,7 @@ Section HeapProofs.
               rewrite (lessAt_in _ _ _ _ _ Hxr Hxl) in E. rewrite (lessAt_in _ _ _ _ _ Hxl Hxr). apply asym; exact E.
             + assert (o = left + 1) by (unfold isChild in Ho; subst left; lia). subst o. exact E.
           - unfold isChild in Ho; subst left; lia. }
-        destruct (lessAt less l child i) eqn:Hl; simpl.
+        destruct (lessAt less l child i) eqn:Hl; cbn [negb].
         * destruct (in_range l child ltac:(lia)) as [b Hb]. destruct (in_range l i ltac:(unfold isChild in Hci; lia)) as [a Ha].
           rewrite (lessAt_in _ _ _ _ _ Hb Ha) in Hl.
           pose proof (child_gt _ _ Hci) as Hic.
@@ -291,7 +313,7 @@ Section HeapProofs.
   Proof.
     intros Hn H p c Hc Hclt. rewrite firstn_length_le in Hclt by exact Hn.
     pose proof (child_gt _ _ Hc). specialize (H p c Hc Hclt). unfold lessAt in *.
-    rewrite !nth_error_firstn. destruct (Nat.ltb_spec c n), (Nat.ltb_spec p n); try lia. exact H.
+    rewrite !nth_error_firstn'. destruct (Nat.ltb_spec c n), (Nat.ltb_spec p n); try lia. exact H.
   Qed.
 
   Lemma firstn_snoc_nth (l : list A) n x : nth_error l n = Some x -> S n = length l -> l = firstn n l ++ [x].
@@ -336,22 +358,21 @@ Section HeapProofs.
     eapply heap_root_min; eauto.
   Qed.
 
+  Lemma down_length fuel : forall (l : list A) i n, length (down less fuel l i n) = length l.
+  Proof.
+    induction fuel as [|f IH]; intros l i n; [reflexivity|].
+    rewrite down_unfold. destruct (n <=? 2 * i + 1); [reflexivity|].
+    match goal with |- context [negb ?c] => destruct (negb c) end; [reflexivity|].
+    rewrite IH. apply swap_length.
+  Qed.
+
   Lemma hpop_none l : hpop less l = None -> l = [].
   Proof.
     unfold hpop. destruct l as [|a0 r0] eqn:El; [reflexivity|]. rewrite <- El.
     assert (Hlen : 0 < length l) by (subst l; simpl; lia).
-    set (n := length l - 1).
-    destruct (in_range l 0 Hlen) as [a Ha]. destruct (in_range l n ltac:(lia)) as [b Hb].
-    intros Hp. exfalso.
-    assert (length (down less (length l) (swap l 0 n) 0 n) = length l).
-    { clear Hp. generalize (length l) at 1 as fuel. intros fuel. generalize 0 as i.
-      assert (Hs : length (swap l 0 n) = length l) by apply swap_length.
-      revert Hs. generalize (swap l 0 n) as m. induction fuel as [|f IH]; intros m Hs i; simpl; [exact Hs|].
-      destruct (n <=? 2 * i + 1); [exact Hs|].
-      match goal with |- context [negb ?c] => destruct (negb c) end; [exact Hs|].
-      apply IH. rewrite swap_length. exact Hs. }
-    destruct (nth_error (down less (length l) (swap l 0 n) 0 n) n) eqn:E; [destruct Hp; discriminate|].
-    apply nth_error_None in E. lia.
+    set (n := length l - 1). intros Hp. exfalso.
+    destruct (nth_error (down less (length l) (swap l 0 n) 0 n) n) eqn:E; [discriminate|].
+    apply nth_error_None in E. rewrite down_length, swap_length in E. lia.
   Qed.
 End HeapProofs.
 
